@@ -90,11 +90,7 @@ def build_engine(c):
                 return await next_resolver(parent, args, ctx, info)
         return D
 
-    def register_directives():
-        for n in schema["directives"]:
-            Directive(n, schema_name=h.name)(mk(n))
-
-    h.register_directives = register_directives
+    h.directive_factory = mk
     run_async(h.build())
     return schema, pairs, h
 
@@ -276,11 +272,7 @@ def rebuild(spec):
                 return await next_resolver(parent, args, ctx, info)
         return D
 
-    def register_directives():
-        for n in schema["directives"]:
-            Directive(n, schema_name=h.name)(mk(n))
-
-    h.register_directives = register_directives
+    h.directive_factory = mk
     run_async(h.build())
     return h
 
